@@ -9,6 +9,8 @@ PROPS["C18"] = {
          "files": ["zz_verif_c18.go"], "quick": r"^VerifC18_", "thorough": r"^VerifC18T?_"},
         {"name": "http", "pkg": "goa.design/goa/v3/http", "pkgdir": "http", "pkgname": "http", "harness_dir": "http",
          "files": ["zz_verif_c18.go"], "quick": r"^VerifC18_", "thorough": r"^VerifC18T?_"},
+        {"name": "grpc", "pkg": "goa.design/goa/v3/grpc", "pkgdir": "grpc", "pkgname": "grpc", "harness_dir": "grpc",
+         "files": ["zz_verif_c18.go"], "quick": r"^VerifC18_", "thorough": r"^VerifC18T?_"},
     ],
     "bounds": {"quick": {"errors_merged": 3, "groupings": 2, "operand_kinds": 5, "message_bytes": 1},
                "thorough": {"errors_merged": 4, "groupings": 5, "operand_kinds": 4, "message_bytes": 1}},
